@@ -300,6 +300,69 @@ def fragment_loop(sl, for_re, name=None):
     return hdr, s
 
 
+def _split_items(text):
+    """Split the text of a block body into items: ('simple', text) statements ending in ';' at depth 0, or
+    ('compound', header, body_text) for `header { body }` (if/else/for/while/try/catch/do/bare blocks)."""
+    items, i, n, start = [], 0, len(text), 0
+    depth_par = 0
+    while i < n:
+        c = text[i]
+        if c == '/' and i + 1 < n and text[i + 1] == '/':
+            j = text.find('\n', i); i = n if j < 0 else j; continue
+        if c == '/' and i + 1 < n and text[i + 1] == '*':
+            j = text.find('*/', i + 2); i = n if j < 0 else j + 2; continue
+        if c in '"\'':
+            q = c; i += 1
+            while i < n and text[i] != q:
+                if text[i] == '\\': i += 1
+                i += 1
+            i += 1; continue
+        if c == '#' and text[:i].rstrip(' \t').endswith('\n') or (c == '#' and i == 0):
+            j = text.find('\n', i); j = n if j < 0 else j
+            if text[start:i].strip():
+                items.append(('simple', text[start:i]))
+            items.append(('pp', text[i:j])); i = j; start = j; continue
+        if c == '(':
+            depth_par += 1
+        elif c == ')':
+            depth_par -= 1
+        elif c == ';' and depth_par == 0:
+            items.append(('simple', text[start:i + 1])); start = i + 1
+        elif c == '{' and depth_par == 0:
+            k = match_close(text, i)
+            items.append(('compound', text[start:i], text[i + 1:k])); i = k; start = k + 1
+        i += 1
+    if text[start:].strip():
+        items.append(('simple', text[start:]))
+    return items
+
+
+def project_statements(sl, keep_re, name=None):
+    """Projection fragment: the function with every simple statement that does NOT match keep_re removed; a compound
+    statement survives iff something inside it survives (its header is kept verbatim).  What is dropped: all other
+    statements.  Sound for facts about variables that only the kept statements can write."""
+    header, body = body_of(sl.text)
+    kept = [0]
+
+    def proj(text):
+        out = []
+        for it in _split_items(text):
+            if it[0] == 'simple':
+                if re.search(keep_re, strip_comments(it[1])):
+                    out.append(it[1].strip('\n')); kept[0] += 1
+            elif it[0] == 'pp':
+                continue
+            else:
+                inner = proj(it[2])
+                if inner.strip():
+                    out.append(it[1].strip('\n') + " {\n" + inner + "\n}")
+        return "\n".join(out)
+    t = header + "{\n" + proj(body) + "\n}\n"
+    s = Slice(name or sl.name + ":projection", sl.rel, t, sl.line, kind="projection-fragment")
+    s.kept_statements = kept[0]
+    return s
+
+
 def subst(sl, rules):
     """Apply must-fire substitutions: rules = [(regex, replacement, expected_count)].
     A different hit count => Undecided.  Returns the new text; logs into the slice."""
